@@ -145,6 +145,10 @@ type Raft struct {
 	// The most recently committed configuration of the cluster.
 	committedConfiguration *Configuration
 
+	// Indicates that the state of this node has to be restored before it is started:
+	// it has been stopped, which closes its log, or an attempt to restore it failed.
+	needsRestore bool
+
 	// A channel used to respond to membership change requests.
 	configurationResponseCh chan Result[Configuration]
 
@@ -456,10 +460,14 @@ func (r *Raft) start(restore bool) error {
 		return nil
 	}
 
-	if restore {
+	// A node that has been stopped has closed its log and must restore its
+	// state before it can be started again, whichever way it is started.
+	if restore || r.needsRestore {
+		r.needsRestore = true
 		if err := r.restore(); err != nil {
 			return fmt.Errorf("could not restore state: %w", err)
 		}
+		r.needsRestore = false
 	}
 
 	if r.configuration == nil {
@@ -516,6 +524,7 @@ func (r *Raft) Stop() {
 	}
 
 	r.state = Shutdown
+	r.needsRestore = true
 	r.applyCond.Broadcast()
 	r.commitCond.Broadcast()
 	r.readOnlyCond.Broadcast()
